@@ -26,6 +26,7 @@ import (
 	"os"
 	"reflect"
 	"sort"
+	"strings"
 	"testing/iotest"
 	"time"
 
@@ -116,6 +117,7 @@ type variant struct {
 	v    int16
 	body []byte
 	sh   *connfake.Shape
+	cuts []int // nil: the tier's default cut positions; else exactly these
 }
 
 func connVariants(r *rand.Rand, thorough bool) []variant {
@@ -125,7 +127,7 @@ func connVariants(r *rand.Rand, thorough bool) []variant {
 			mk := func(errs []int16, sh *connfake.Shape) {
 				w := &connfake.W{Errs: errs}
 				op.Build(v, w, r, sh)
-				vs = append(vs, variant{op, v, w.B, sh})
+				vs = append(vs, variant{op: op, v: v, body: w.B, sh: sh})
 			}
 			if op.Name != "fetch" {
 				mk(nil, &connfake.Shape{Topic: topic})
@@ -144,9 +146,9 @@ func connVariants(r *rand.Rand, thorough bool) []variant {
 				attrs   protocol.Attributes
 				comment string
 			}
-			layouts := []layout{{2, 3, 1, 0, "v2 one batch"}, {2, 5, 2, 0, "v2 two batches"}, {1, 3, 1, 0, "v1 message set"}, {2, 4, 1, 1, "v2 gzip"}, {1, 3, 1, 1, "v1 gzip"}}
+			layouts := []layout{{2, 3, 1, 0, "v2 one batch"}, {2, 5, 2, 0, "v2 two batches"}, {1, 3, 1, 0, "v1 message set"}, {1, 3, 1, 1, "v1 gzip"}}
 			if thorough {
-				layouts = append(layouts, layout{2, 6, 3, 2, "v2 snappy three batches"}, layout{2, 2, 1, 3, "v2 lz4"}, layout{2, 2, 1, 4, "v2 zstd"}, layout{1, 4, 2, 2, "v1 snappy"})
+				layouts = append(layouts, layout{2, 6, 3, 2, "v2 snappy three batches"}, layout{1, 4, 2, 2, "v1 snappy"})
 			}
 			for _, l := range layouts {
 				if l.magic == 2 && v < 4 {
@@ -159,9 +161,69 @@ func connVariants(r *rand.Rand, thorough bool) []variant {
 				}
 				mk(nil, &connfake.Shape{Topic: topic, Offset: base, HWM: base + int64(l.n), Set: set, Want: msgs})
 			}
+			// compressed v2 batches (the LAST batch compressed), every codec, in both tiers: EVERY cut position inside the
+			// message set — the points where a codec sees a clean end of its input (offset 0 of the payload, the end of
+			// a framing header, a block boundary) are among them; plus one multi-block snappy payload cut around every
+			// block boundary of its xerial framing.
+			if v >= 4 {
+				for codec := protocol.Attributes(1); codec <= 4; codec++ {
+					for _, b := range []int{1, 2} {
+						set, msgs, base, err := connfake.RecordSet(r, 2, int64(10+r.Intn(20)), 2*b+1, b, codec)
+						if err != nil {
+							fmt.Fprintln(os.Stderr, "c17: compressed record set", codec, err)
+							continue
+						}
+						mk(nil, &connfake.Shape{Topic: topic, Offset: base, HWM: base + int64(2*b+1), Set: set, Want: msgs})
+						va := &vs[len(vs)-1]
+						start := 8 + len(va.body) - len(set)
+						for k := start - 2; k <= 8+len(va.body); k++ {
+							va.cuts = append(va.cuts, k)
+						}
+						va.cuts = append(va.cuts, 0, 3, 8, 20)
+					}
+				}
+				if v == 10 || thorough {
+					set, msgs, base, err := connfake.RecordSetSized(r, 2, 40, 3, 1, 2, 30000)
+					if err == nil {
+						mk(nil, &connfake.Shape{Topic: topic, Offset: base, HWM: base + 3, Set: set, Want: msgs})
+						va := &vs[len(vs)-1]
+						start := 8 + len(va.body) - len(set)
+						va.cuts = append(xerialBoundaries(set, start), start+30, start+61, start+62, 8+len(va.body)-1, 8+len(va.body))
+					}
+				}
+			}
 		}
 	}
 	return vs
+}
+
+// xerialBoundaries returns the frame offsets around every structural boundary of a xerial-framed snappy payload of a
+// single v2 batch (batch header 61 bytes, then magic(8) version(4) compat(4), then blocks [int32 length][data]); nil
+// if the payload is not framed that way.
+func xerialBoundaries(set []byte, frameStart int) (ks []int) {
+	const hdr = 61
+	if len(set) < hdr+16 || string(set[hdr:hdr+8]) != "\x82SNAPPY\x00" {
+		return nil
+	}
+	add := func(p int) {
+		for d := -1; d <= 1; d++ {
+			ks = append(ks, frameStart+p+d)
+		}
+	}
+	add(hdr)
+	add(hdr + 8)
+	add(hdr + 16)
+	p := hdr + 16
+	for p+4 <= len(set) {
+		n := int(set[p])<<24 | int(set[p+1])<<16 | int(set[p+2])<<8 | int(set[p+3])
+		add(p + 4)
+		p += 4 + n
+		if p > len(set) {
+			break
+		}
+		add(p)
+	}
+	return ks
 }
 
 // nextBody is the list-offsets answer scripted for the follow-up operation.
@@ -208,7 +270,7 @@ func connCase(va variant, k int) (impl string, dur time.Duration) {
 	}()
 	select {
 	case impl = <-done:
-	case <-time.After(30 * time.Second):
+	case <-time.After(6 * time.Second):
 		impl = "hang - -"
 	}
 	return impl, time.Since(t0)
@@ -376,10 +438,24 @@ func main() {
 	thorough := gen.Thorough()
 	nconn, nrr, slow := 0, 0, 0
 	var worst time.Duration
+	hung := 0
 	for _, va := range connVariants(r, thorough) {
 		n := 8 + len(va.body)
-		for _, k := range cuts(r, n, thorough, 10) {
+		ks := va.cuts
+		if ks == nil || (thorough && n < 4096) {
+			ks = cuts(r, n, thorough, 10)
+		}
+		sort.Ints(ks)
+		last := -1
+		for _, k := range ks {
+			if k < 0 || k > n || k == last || hung >= 5 {
+				continue
+			}
+			last = k
 			impl, d := connCase(va, k)
+			if strings.HasPrefix(impl, "hang") {
+				hung++ // every hung case costs its watchdog: a handful is enough for the replay
+			}
 			if d > 2*time.Second {
 				slow++
 			}
